@@ -172,25 +172,45 @@ def r_metadata(ctx):
 
 
 def enum_table(f):
-    """{byte value: variant name | 'Err' | '?'}: the function evaluated path-by-path for concrete argument values"""
-    import absint
-    pname = f.local_name(1) or 'arg1'
+    """{byte value: variant name | 'Err' | '?'}: the conversion function evaluated for concrete argument values by the
+    finite-domain evaluator (sa/enumeval.py): `match` with guards, comparisons, lookup in a constant table, ..."""
+    import enumeval
+    F = f.facts
+    ret = f.ret_ty()
     table = {}
     for v in list(range(0, 8)) + [255]:
-        outs, forks = absint.explore(f, {'int:%s' % pname: v})
+        enumeval.reset()
+        ev = enumeval.Eval(F, f, params={1: {(): frozenset([v])}}).run()
         res = set()
-        for k, t in outs:
-            tt = strip(t)
-            if tt[0] == 'agg' and tt[1].endswith('result::Result'):
-                if tt[2] == 'Ok':
-                    inner = strip(tt[3][0][1])
-                    res.add(inner[2] if inner[0] == 'agg' else '?')
-                else:
-                    res.add('Err')
-            else:
+        for rb, tree in ev.ret_trees.items():
+            top = tree.get(())
+            if top is None:
                 res.add('?')
-        table[v] = list(res)[0] if len(res) == 1 else '?' + '|'.join(sorted(res))
+                continue
+            for x in top:
+                is_value = (x == 0) if 'result::Result' in ret else (x == 1)     # Ok / Some
+                if not is_value:
+                    res.add('Err')
+                    continue
+                pay = tree.get(('@Ok', '0')) if 'result::Result' in ret else tree.get(('@Some', '0'))
+                if pay is None:
+                    res.add('?')
+                else:
+                    res |= {variant_name(F, ret, y) for y in pay}
+        table[v] = list(res)[0] if len(res) == 1 else '?' + '|'.join(sorted(map(str, res)))
     return table
+
+
+def variant_name(F, ret_ty, discr):
+    for path, a in F.adts.items():
+        if path in ret_ty and a.get('variants') and len(a['variants']) > 1:
+            for v in a['variants']:
+                try:
+                    if int(v['discr']) == discr:
+                        return v['name']
+                except (KeyError, ValueError, TypeError):
+                    pass
+    return discr
 
 
 def r_modes(ctx):
